@@ -96,8 +96,8 @@ static rc::Gen<Op> c06_op()
 	    {1, op_gen(JUNK, conn, rng(0, 7), zero(), zero(), zero(), zero(), jn)},
 	    {2, op_gen(ADVANCE, zero(), rng(0, 13), zero(), zero(), zero(), zero(), nojoin())},
 	    // ordinary well-formed traffic between the hostile connections: elements, fetches, routed requests and their (late) replies
-	    {4, op_gen(ADD, conn, rng(0, 4), rc::gen::weightedOneOf<int>({{3, rng(0, 15)}, {2, rc::gen::just(-1)}}), zero(), rc::gen::weightedElement<int>({{6, 0}, {1, 1}, {1, 2}}), idmode(), jn)},
-	    {3, op_gen(REMOVE, conn, rng(0, 4), zero(), rc::gen::element<int>(0, 2, 2), zero(), idmode(), jn)},
+	    {4, op_gen(ADD, conn, rng(0, 12), rc::gen::weightedOneOf<int>({{3, rng(0, 15)}, {2, rc::gen::just(-1)}}), zero(), rc::gen::weightedElement<int>({{6, 0}, {1, 1}, {1, 2}}), idmode(), jn)},
+	    {3, op_gen(REMOVE, conn, rng(0, 12), zero(), rc::gen::element<int>(0, 2, 2), zero(), idmode(), jn)},
 	    {2, op_gen(FETCH, conn, rng(0, 4), rng(0, 10), zero(), zero(), idmode(), jn)},
 	    {4, op_gen(SET, conn, rng(0, 4), rng(0, 15), rc::gen::element<int>(0, 2, 2), rc::gen::weightedElement<int>({{6, 0}, {1, 1}, {1, 2}}), idmode(), jn)},
 	    {4, op_gen(CALL, conn, rng(0, 4), rng(0, 15), rc::gen::element<int>(0, 2, 2), rc::gen::weightedElement<int>({{6, 0}, {1, 1}, {1, 2}}), idmode(), jn)},
